@@ -41,6 +41,9 @@ CHECKS = {
     "C13": ("model_checking", GRID + "; plus conformance of every epoch of scripted real groups to the reference (shadow joiner)",
             "Every derivation (key schedule, secret tree, per-generation keys, PSK chain, exporter, ExpandWithLabel) is compared with an independent RFC 9420 implementation over an enumerated input grid for every suite of every provider, and every epoch of scripted real groups is re-derived by the reference from the Welcome's joiner secret / the previous init secret and compared with what the members hold, including transcript hashes and tags recomputed from wire bytes.",
             "Trusted: reference::keysched on sha2/hmac; hook derive::* (thin wrappers over the crate-private functions) and verif_epoch_keys (read-only).", "DESIGN.md 2/C13"),
+    "C18": ("model_checking", "exhaustive enumeration of (PSK list, by value/by reference, holder assignment) cases on forks of a real base world, judged by a reference 'holds every listed PSK' predicate",
+            "Every ordered PSK list of 1..3 entries over two external ids and resumption epochs 0..7, by value and by reference, with every assignment of {same, other, absent} values to two receivers and a Welcome joiner whose retention windows and join epochs differ: a party reaches the new epoch exactly when it holds the committer's value for every listed PSK, otherwise it refuses and is unchanged; all derived epoch secrets are sensitive to value, id, nonce and order of any one PSK.",
+            "Trusted: explorer, hook verif_state / derive. 4 parties, one commit per case.", "DESIGN.md 2/C18"),
     "C19": ("model_checking", "exhaustive enumeration of (retention, commit chain, send epoch, write pattern, sender-leaf fate, store) cases executed from scratch on the real implementation over the tee store, judged by a reference retention model",
             "Every (retention, chain length, send epoch, subset of write positions, fate of the sender's leaf, answering store) case: a late message decrypts exactly when its epoch lies in the model's retention window and the leaf still carries the sender's signature key; the stored window is read back epoch by epoch from both shipped stores after every write.",
             "Trusted: explorer, reference retention model, tee store. R in 1..3, chains up to R+2 (quick) / R+3 (thorough) commits.", "DESIGN.md 2/C19"),
